@@ -59,10 +59,13 @@ input(std::istream &in) {
     // damaged; in the latter case the count must not be used.
     return;
   }
-  _alt_names.reserve(num_alt_names);
+  // (The count comes from the file: believe it only as far as names turn up.)
   for (int i = 0; i < num_alt_names; ++i) {
     std::string alt_name;
     idf_input_string(in, alt_name);
+    if (in.fail()) {
+      return;
+    }
     _alt_names.push_back(alt_name);
   }
 }
